@@ -104,6 +104,12 @@ def pe(start, final, lon, lat, pml=0.0, pmb=0.0, which="equ"):
     # every other call re-uses long-lived Epoch / Angle objects that are
     # re-set in place; results must not depend on the objects' history
     _POOL["n"] += 1
+    # one call in five: the longitude / right ascension in its other
+    # legitimate representation, lon - 360 in (-360, 0) (only where the
+    # subtraction is exact)
+    if _POOL["n"] % 5 == 0 and 0.0 < lon < 360.0 \
+            and (lon - 360.0) + 360.0 == lon:
+        lon = lon - 360.0
     if _POOL["n"] % 2:
         if "s" not in _POOL:
             _POOL["s"], _POOL["f"] = Epoch(2451545.0), Epoch(2451545.0)
